@@ -153,6 +153,8 @@ func (h *Handlers) wrap(kind byte) jrpc2.Handler {
 			return nil, jrpc2.Errorf(jrpc2.ParseError, "P:%s", tag)
 		case 'u':
 			return UnmarshalableResult{}, nil
+		case 'b': // an error whose Data is not valid JSON: the reply cannot be encoded
+			return nil, &jrpc2.Error{Code: 9, Message: "B:" + tag, Data: json.RawMessage("{bad")}
 		case 'x': // a pre-encoded result, pretty-printed over several lines
 			return json.RawMessage("{\n  \"t\": " + jstr(tag) + ",\n  \"a\": [ 1,\n 2 ]\n}"), nil
 		}
@@ -169,7 +171,7 @@ func (h *Handlers) Assign(ctx context.Context, method string) jrpc2.Handler {
 		return f
 	}
 	switch method {
-	case "g", "G", "i", "e", "u", "r", "p", "x":
+	case "g", "G", "i", "e", "u", "r", "p", "x", "b":
 		return h.wrap(method[0])
 	}
 	return nil
@@ -177,7 +179,7 @@ func (h *Handlers) Assign(ctx context.Context, method string) jrpc2.Handler {
 
 // Names implements jrpc2.Namer.
 func (h *Handlers) Names() []string {
-	names := []string{"G", "e", "g", "i", "p", "r", "u", "x"}
+	names := []string{"G", "b", "e", "g", "i", "p", "r", "u", "x"}
 	for k := range h.Extra {
 		names = append(names, k)
 	}
